@@ -12,8 +12,13 @@ hypotheses on it are the ones the library itself states for its bases:
 * `Complete B`    : `Σ_a B_a[x] conj(B_a[y]) = δ_xy` — *proved* from orthonormality when `n = d²`;
 * `HermitianBasis B`.
 
-Conversions that end in `truncate_hs` are stated for the value before truncation (`…Raw`) together with
-the exact behaviour of `truncate_hs` (last section).
+Conversions that end in `truncate_hs` are stated twice: for the value before truncation (`…Raw`, any star-ring), and
+for the EXECUTED functions (`hsOfChoiSparse`, `hsOfChoiDict`, `hsOfChoiLoop`, `toVarFromChoi`, `vecOfDensity`,
+`toVarFromDensity`, `toVarFromMatrices`, `hsOfKraus`) on real data whose entries are `0` or at least `eps` in modulus
+(`…_executed`, with the counter-instance `hs_choi_hs_executed_needs_threshold`).
+The Kraus theorems named `…_exact_kernel` assume EXACT `eigh` / `sqrt` / `abs` (no floating-point output satisfies that:
+they describe the algorithm, not the float run); `kraus_roundtrip_residual` is the contract-free version (deviation = Choi
+residual, isometrically).
 -/
 open Matrix
 set_option linter.unusedSectionVars false
@@ -231,6 +236,50 @@ theorem povm_tuple_access {d n : Nat} (B : Basis CRat d n) (vecs : List (Vec CRa
   · intro a b c i j k hi hj hk; simp [mdSerial, mdSerialAux, hi, hj, hk]
   · intro h; simp [mdSerial, h]
 
+/-- tuple access for ANY number of factors: when every component is in range the serial index is the row-major (Horner)
+value `(((i₁·n₂ + i₂)·n₃ + i₃) …)`; an out-of-range component is an IndexError. -/
+theorem mdSerial_general (lens idx : List Nat) (hlen : lens.length = idx.length) :
+    ((∀ p ∈ lens.zip idx, p.2 < p.1) →
+      mdSerial lens idx = .ok ((lens.zip idx).foldl (fun acc p => acc * p.1 + p.2) 0)) ∧
+    ((∃ p ∈ lens.zip idx, ¬ p.2 < p.1) → mdSerial lens idx = .error .indexError) := by
+  have key : ∀ (lens idx : List Nat) (acc : Nat), lens.length = idx.length →
+      ((∀ p ∈ lens.zip idx, p.2 < p.1) →
+        mdSerialAux lens idx acc = .ok ((lens.zip idx).foldl (fun acc p => acc * p.1 + p.2) acc)) ∧
+      ((∃ p ∈ lens.zip idx, ¬ p.2 < p.1) → mdSerialAux lens idx acc = .error .indexError) := by
+    intro lens
+    induction lens with
+    | nil =>
+      intro idx acc hl
+      cases idx with
+      | nil => exact ⟨fun _ => rfl, fun ⟨p, hp, _⟩ => by simp at hp⟩
+      | cons i is => simp at hl
+    | cons l ls ih =>
+      intro idx acc hl
+      cases idx with
+      | nil => simp at hl
+      | cons i is =>
+        have hl' : ls.length = is.length := by simpa using hl
+        by_cases hi : i < l
+        · obtain ⟨h1, h2⟩ := ih is (acc * l + i) hl'
+          constructor
+          · intro hall
+            simp only [mdSerialAux, hi, if_true, List.zip_cons_cons, List.foldl_cons]
+            exact h1 (fun p hp => hall p (by simp [hp]))
+          · rintro ⟨p, hp, hbad⟩
+            simp only [mdSerialAux, hi, if_true]
+            simp only [List.zip_cons_cons, List.mem_cons] at hp
+            rcases hp with rfl | hp
+            · exact absurd hi hbad
+            · exact h2 ⟨p, hp, hbad⟩
+        · constructor
+          · intro hall
+            exact absurd (hall (l, i) (by simp)) hi
+          · intro _
+            simp [mdSerialAux, hi]
+  unfold mdSerial
+  rw [if_neg (by simpa using hlen)]
+  exact key lens idx 0 hlen
+
 /-! ## change of basis -/
 
 /-- `convert_vec` re-expresses the same operator: `Σ_b w_b T_b = Σ_a v_a F_a` when the target
@@ -373,8 +422,8 @@ sort, scaling by `sqrt`), **under the explicit contract of numpy's kernels only*
 * `hzero`: eigenvalues inside the zero filter (`|λ| ≤ atolSettings`) are exactly 0 (exact arithmetic).
 Then for a map that passes the CP verdict, `to_hs_from_kraus_matrices(to_kraus_matrices_from_hs(hs)) = hs`
 (before `truncate_hs`).  `krausRaw` is the list before the phase convention of step 3; the complete function,
-phase convention included, is `krausFull` / `kraus_full_roundtrip` below. -/
-theorem kraus_roundtrip {d : Nat} (B : Basis CRat d (d * d)) (h : Orthonormal B)
+phase convention included, is `krausFull` / `kraus_full_roundtrip_exact_kernel` below. -/
+theorem kraus_roundtrip_exact_kernel {d : Nat} (B : Basis CRat d (d * d)) (h : Orthonormal B)
     (hs : Mat CRat (d * d) (d * d)) (eigs : List (EigPair d)) (atol atolS : Rat)
     (hcp : isCp (choiSparse B hs) eigs atol = true)
     (hspec : ∀ i j, (choiSparse B hs).get i j
@@ -405,8 +454,7 @@ theorem truncEntry_spec (eps : Rat) (z : CRat) :
     simp [h1, h2, h3]
 
 /-- a matrix with real entries is never rejected, and entries at least `eps` in modulus are returned
-unchanged: on such data `truncate_hs` is the identity, so the `…Raw` round trips above are the
-round trips of the truncated functions. -/
+unchanged (the list version is `truncList_ofRat`; the executed round trips are in the section "the EXECUTED conversions"). -/
 theorem truncEntry_real (eps : Rat) (x : Rat) (hx : ¬ rabs x < eps) :
     truncEntry eps ⟨x, 0⟩ = .ok x := by
   simp [truncEntry, hx]
@@ -510,13 +558,13 @@ that passes the CP verdict, the operators `K_e` returned by the executable `krau
 `Σ_e K_e ρ K_e^† = Λ(ρ)` for every matrix `ρ`, where `Λ` is the map denoted by `hs`
 (coefficients of `ρ` in `B`, multiplied by `hs`, re-expanded in `B`); moreover Kraus → HS → Choi returns the
 Choi matrix of `hs`, and Kraus → HS returns `hs`. -/
-theorem kraus_channel_preserved {d : Nat} (B : Basis CRat d (d * d)) (h : Orthonormal B)
+theorem kraus_channel_preserved_exact_kernel {d : Nat} (B : Basis CRat d (d * d)) (h : Orthonormal B)
     (hs : Mat CRat (d * d) (d * d)) (eigs : List (EigPair d)) (atol atolS : Rat)
     (hcp : isCp (choiSparse B hs) eigs atol = true) (hc : EighContract B hs eigs atolS) (rho : Mat CRat d d) :
     krausApply (krausRaw B hs eigs atol atolS) rho = densitySparse B (hs.mulVec (vecOfDensityRaw B rho)) ∧
     choiSparse B (hsOfKrausRaw B (krausRaw B hs eigs atol atolS)) = choiSparse B hs ∧
     hsOfKrausRaw B (krausRaw B hs eigs atol atolS) = hs := by
-  have hrt := kraus_roundtrip B h hs eigs atol atolS hcp hc.spec hc.sqrt_exact hc.filtered_zero
+  have hrt := kraus_roundtrip_exact_kernel B h hs eigs atol atolS hcp hc.spec hc.sqrt_exact hc.filtered_zero
   refine ⟨?_, by rw [hrt], hrt⟩
   rw [← kraus_hs_action B h, hrt]
 
@@ -524,7 +572,7 @@ theorem kraus_channel_preserved {d : Nat} (B : Basis CRat d (d * d)) (h : Orthon
 `sqrt` scaling AND the phase convention of step 3 — first non-zero entry made non-negative in numpy's complex
 order) under the explicit contracts of numpy's `eigh`, `sqrt` (`EighContract`) and `abs` (`AbsContract`):
 Kraus → HS returns `hs`, and the returned operators act as the channel denoted by `hs`. -/
-theorem kraus_full_roundtrip {d : Nat} (B : Basis CRat d (d * d)) (h : Orthonormal B)
+theorem kraus_full_roundtrip_exact_kernel {d : Nat} (B : Basis CRat d (d * d)) (h : Orthonormal B)
     (hs : Mat CRat (d * d) (d * d)) (eigs : List (EigPair d)) (atol atolS : Rat)
     (hcp : isCp (choiSparse B hs) eigs atol = true) (hc : EighContract B hs eigs atolS)
     (habs : AbsContract eigs) (rho : Mat CRat d d) :
@@ -547,6 +595,161 @@ theorem kraus_phase_invariant (B : Basis K d (d * d)) (ps : List K) (ks : List (
     apply Mat.ext'; intro x y
     rw [krausTensorSum_get, krausTensorSum_get, phased_sum ps ks hp hlen]
   exact ⟨e, by unfold hsOfKrausRaw; rw [e]⟩
+
+/-! ## the EXECUTED conversions (through `truncate_hs`) on real data
+
+The round trips above are about the values before `truncate_hs` (`…Raw`).  The functions the driver executes — and the
+library's — end with `truncate_hs`, whose fluctuation cut maps every entry with `0 < |x| < eps` to `0`.  So the executed round
+trips hold exactly on data whose entries are `0` or at least `eps` in modulus (hypothesis `hbig`), and FAIL otherwise
+(`hs_choi_hs_executed_needs_threshold`). -/
+
+/-- executed HS → Choi → HS, all three implementations: sparse and dict (Hermitian basis) through `truncate_hs`, the plain
+loop through `.real`. -/
+theorem hs_choi_hs_executed {d : Nat} (eps : Rat) (B : Basis CRat d (d * d)) (h : Orthonormal B)
+    (hs : Mat Rat (d * d) (d * d)) (hbig : ∀ x ∈ matList hs, x = 0 ∨ ¬ rabs x < eps) :
+    hsOfChoiSparse eps B (choiSparse B (ofRatMat hs)) = .ok (matList hs) ∧
+    (HermitianBasis B → hsOfChoiDict eps B (choiSparse B (ofRatMat hs)) = .ok (matList hs)) ∧
+    hsOfChoiLoop B (choiSparse B (ofRatMat hs)) = matList hs := by
+  refine ⟨?_, ?_, ?_⟩
+  · unfold hsOfChoiSparse
+    rw [(hs_choi_hs B h _).1, matList_ofRatMat, truncList_ofRat eps _ hbig]
+  · intro hB
+    unfold hsOfChoiDict
+    rw [hsOfChoi_dict_eq_sparse B hB, (hs_choi_hs B h _).1, matList_ofRatMat, truncList_ofRat eps _ hbig]
+  · unfold hsOfChoiLoop
+    rw [(hs_choi_hs B h _).2, matList_ofRatMat, realList_map_ofRat]
+
+/-- the hypothesis `hbig` cannot be dropped: on the orthonormal Hermitian basis `B0`, with threshold `1/2`, the HS matrix with
+the single entry `1/4` does NOT come back (the fluctuation cut zeroes it). -/
+theorem hs_choi_hs_executed_needs_threshold :
+    ∃ (hs : Mat Rat (2 * 2) (2 * 2)), hsOfChoiSparse (1 / 2) B0 (choiSparse B0 (ofRatMat hs)) ≠ .ok (matList hs) := by
+  refine ⟨Mat.ofFn fun i j => if i.val = 1 ∧ j.val = 2 then 1 / 4 else 0, ?_⟩
+  decide +kernel
+
+/-- the three executed Choi → HS implementations on ANY input: whenever the guarded variants accept, each returned entry is
+the plain loop's entry (`.real`, no guard), or `0` where that entry is below the threshold.  (On inputs the guard rejects
+the loop variant still returns the real part: the variants agree on accepted inputs only.) -/
+theorem hsOfChoi_executed_agree {d : Nat} (eps : Rat) (B : Basis CRat d (d * d)) (c : Mat CRat (d * d) (d * d))
+    (r : List Rat) (h : hsOfChoiSparse eps B c = .ok r) :
+    r.length = (hsOfChoiLoop B c).length ∧
+    ∀ (k : Nat) (h1 : k < r.length) (h2 : k < (hsOfChoiLoop B c).length),
+      r[k] = (hsOfChoiLoop B c)[k] ∨ (r[k] = 0 ∧ rabs (hsOfChoiLoop B c)[k] < eps) := by
+  unfold hsOfChoiSparse at h
+  obtain ⟨hl, hk⟩ := truncList_ok eps _ r h
+  have hlen : (hsOfChoiLoop B c).length = (matList (hsOfChoiSparseRaw B c)).length := by
+    simp [hsOfChoiLoop, realList, matList]
+  refine ⟨by rw [hl, hlen], ?_⟩
+  intro k h1 h2
+  have h3 : k < (matList (hsOfChoiSparseRaw B c)).length := by rw [← hlen]; exact h2
+  have e : (hsOfChoiLoop B c)[k] = ((matList (hsOfChoiSparseRaw B c))[k]).re := by
+    simp [hsOfChoiLoop, realList, hsOfChoi_loop_eq_sparse]
+  rw [e]
+  rcases (truncEntry_ok eps _ _ (hk k h3 h1)).2 with ⟨h4, _⟩ | ⟨h4, h5⟩
+  · exact Or.inl h4
+  · exact Or.inr ⟨h4, h5⟩
+
+/-- executed variables → Choi → variables (`to_var_from_choi ∘ to_choi_from_var`, the repaired D3 call site), both settings
+of `on_para_eq_constraint`; with the flag on, `truncate_hs` also sees the inserted row `(1, 0, …)`, hence `eps ≤ 1`. -/
+theorem toVarFromChoi_executed {d : Nat} (eps : Rat) (B : Basis CRat d (d * d)) (h : Orthonormal B)
+    (v : Vec Rat ((d * d) * (d * d))) (w : Vec Rat ((d * d - 1) * (d * d)))
+    (hv : ∀ x ∈ v.toList, x = 0 ∨ ¬ rabs x < eps) (hw : ∀ x ∈ w.toList, x = 0 ∨ ¬ rabs x < eps)
+    (heps : ¬ rabs (1 : Rat) < eps) :
+    toVarFromChoi eps B (toChoiFromVarFree B (ofRatVec v)) false = .ok v.toList ∧
+    toVarFromChoi eps B (toChoiFromVarEq B (ofRatVec w)) true = .ok w.toList := by
+  constructor
+  · unfold toVarFromChoi toChoiFromVarFree
+    have e : matList (unflat v : Mat Rat (d * d) (d * d)) = v.toList := by simp [matList]
+    rw [unflat_ofRatVec, (hs_choi_hs B h _).1, matList_ofRatMat, truncList_ofRat eps _ (by rw [e]; exact hv), e]
+    rfl
+  · unfold toVarFromChoi toChoiFromVarEq
+    have hbig : ∀ x ∈ matList (varToHsEq w), x = 0 ∨ ¬ rabs x < eps := by
+      intro x hx
+      obtain ⟨a, rfl⟩ := (mem_toList_iff_get _ _).1 hx
+      simp only [flat_get, varToHsEq, Mat.get_ofFn]
+      split
+      · split
+        · exact Or.inr heps
+        · exact Or.inl rfl
+      · exact hw _ ((mem_toList_iff_get _ _).2 ⟨_, rfl⟩)
+    have hback : hsToVarEq (varToHsEq w) = w := by
+      apply Vec.ext'; intro x; simp [hsToVarEq, varToHsEq]
+    rw [varToHsEq_ofRat, (hs_choi_hs B h _).1, matList_ofRatMat, truncList_ofRat eps _ hbig]
+    simp only [bind, Except.bind, pure, Except.pure, if_true]
+    rw [matList_drop_eq, hback]
+
+/-- executed vec → matrix → vec for states / POVM elements, and `to_var_from_density_matrix` with both flags
+(`np.delete(vec, 0)` when the flag is on). -/
+theorem vec_density_vec_executed {d n : Nat} (eps : Rat) (B : Basis CRat d n) (h : Orthonormal B) (v : Vec Rat n)
+    (hv : ∀ x ∈ v.toList, x = 0 ∨ ¬ rabs x < eps) :
+    vecOfDensity eps B (densitySparse B (ofRatVec v)) = .ok v.toList ∧
+    toVarFromDensity eps B (densitySparse B (ofRatVec v)) false = .ok v.toList ∧
+    toVarFromDensity eps B (densitySparse B (ofRatVec v)) true = .ok (v.toList.drop 1) := by
+  have e : vecOfDensity eps B (densitySparse B (ofRatVec v)) = .ok v.toList := by
+    unfold vecOfDensity
+    rw [(vec_density_vec B h _).1, toList_ofRatVec, truncList_ofRat eps _ hv]
+  refine ⟨e, ?_, ?_⟩ <;> simp [toVarFromDensity, e, bind, Except.bind, pure, Except.pure]
+
+/-- executed `to_var_from_matrices ∘ to_matrices_from_vecs`: one `truncate_hs` per element, the last element dropped when
+`on_para_eq_constraint`, then stacked. -/
+theorem toVarFromMatrices_executed {d n : Nat} (eps : Rat) (B : Basis CRat d n) (h : Orthonormal B) (vs : List (Vec Rat n))
+    (hv : ∀ v ∈ vs, ∀ x ∈ v.toList, x = 0 ∨ ¬ rabs x < eps) (onEq : Bool) :
+    toVarFromMatrices eps B (vs.map fun v => densitySparse B (ofRatVec v)) onEq
+      = .ok (((if onEq then vs.dropLast else vs).map fun v => v.toList).flatMap id) := by
+  have hm : ∀ (l : List (Vec Rat n)), (∀ v ∈ l, ∀ x ∈ v.toList, x = 0 ∨ ¬ rabs x < eps) →
+      (l.map fun v => densitySparse B (ofRatVec v)).mapM (vecOfDensity eps B) = .ok (l.map fun v => v.toList) := by
+    intro l
+    induction l with
+    | nil => intro _; rfl
+    | cons a l ih =>
+      intro hl
+      rw [List.map_cons, List.mapM_cons, (vec_density_vec_executed eps B h a (hl a (by simp))).1,
+        ih (fun v hv' => hl v (by simp [hv']))]
+      rfl
+  unfold toVarFromMatrices
+  rw [hm vs hv]
+  cases onEq <;> simp [bind, Except.bind, pure, Except.pure, List.map_dropLast]
+
+/-- executed Kraus → HS: when the untruncated HS matrix is the real matrix `hs` (entries 0 or ≥ eps), the executed
+`to_hs_from_kraus_matrices` returns it; in particular (exact kernels) for the list produced by the complete
+`to_kraus_matrices_from_hs`: HS → Kraus → HS as executed. -/
+theorem hsOfKraus_executed {d : Nat} (eps : Rat) (B : Basis CRat d (d * d)) (ks : List (Mat CRat d d))
+    (hs : Mat Rat (d * d) (d * d)) (hne : ks ≠ []) (hraw : hsOfKrausRaw B ks = ofRatMat hs)
+    (hbig : ∀ x ∈ matList hs, x = 0 ∨ ¬ rabs x < eps) :
+    hsOfKraus eps B ks = .ok (matList hs) := by
+  unfold hsOfKraus
+  have : ks.isEmpty = false := by cases ks <;> simp_all
+  rw [this, hraw, matList_ofRatMat, truncList_ofRat eps _ hbig]
+  rfl
+
+theorem hs_kraus_hs_executed_exact_kernel {d : Nat} (eps : Rat) (B : Basis CRat d (d * d)) (h : Orthonormal B)
+    (hs : Mat Rat (d * d) (d * d)) (eigs : List (EigPair d)) (atol atolS : Rat)
+    (hcp : isCp (choiSparse B (ofRatMat hs)) eigs atol = true) (hc : EighContract B (ofRatMat hs) eigs atolS)
+    (habs : AbsContract eigs) (hne : krausFull B (ofRatMat hs) eigs atol atolS ≠ [])
+    (hbig : ∀ x ∈ matList hs, x = 0 ∨ ¬ rabs x < eps) :
+    hsOfKraus eps B (krausFull B (ofRatMat hs) eigs atol atolS) = .ok (matList hs) :=
+  hsOfKraus_executed eps B _ hs hne
+    (kraus_full_roundtrip_exact_kernel B h (ofRatMat hs) eigs atol atolS hcp hc habs (Mat.zero)).1 hbig
+
+/-! ## Kraus round trip without kernel contracts: the deviation IS the Choi residual -/
+
+/-- for ANY list of operators (e.g. what floating-point `eigh` / `sqrt` / `abs` actually produce — no exactness assumed):
+Kraus → HS is Choi → HS of `Σ_K |K⟫⟪K|`; hence the deviation of HS → Kraus → HS from `hs` is the image of the Choi residual
+`R = Σ_K |K⟫⟪K| − C(hs)` under the (norm-preserving) Choi → HS map: `‖HS(Kraus) − hs‖_F = ‖R‖_F` exactly.  `R` collects the
+eigh residual, the dropped eigenvalues `|λ| ≤ atol`, the rounding of `sqrt` and a non-unit phase modulus.  With exact kernels
+`R = 0` (`kraus_full_roundtrip_exact_kernel`). -/
+theorem kraus_roundtrip_residual (B : Basis K d (d * d)) (h : Orthonormal B) (hs : Mat K (d * d) (d * d))
+    (ks : List (Mat K d d)) :
+    hsOfKrausRaw B ks = hsOfChoiSparseRaw B (choiOfKraus ks) ∧
+    (hsOfKrausRaw B ks).sub hs = hsOfChoiSparseRaw B ((choiOfKraus ks).sub (choiSparse B hs)) ∧
+    frobSq ((hsOfKrausRaw B ks).sub hs) = frobSq ((choiOfKraus ks).sub (choiSparse B hs)) := by
+  have e : choiSparse B (hsOfKrausRaw B ks) = choiOfKraus ks := by
+    apply Mat.ext'; intro i j
+    rw [choi_of_kraus B h]; simp [choiOfKraus]
+  have e1 : hsOfKrausRaw B ks = hsOfChoiSparseRaw B (choiOfKraus ks) := by
+    rw [← e, (hs_choi_hs B h _).1]
+  have e2 : (hsOfKrausRaw B ks).sub hs = hsOfChoiSparseRaw B ((choiOfKraus ks).sub (choiSparse B hs)) := by
+    rw [hsOfChoiSparseRaw_sub, ← e1, (hs_choi_hs B h hs).1]
+  exact ⟨e1, e2, by rw [e2, frobSq_hsOfChoi B h]⟩
 
 /-! ## tie to the source: the model is built from the terms GENERATED from quara's code (lean/QGen/C02.lean)
 
@@ -630,12 +833,33 @@ theorem gen_truncate (eps : Rat) (z : CRat) : truncEntry eps z = QGen.C02.truncE
   unfold truncEntry QGen.C02.truncEntryGen QGen.C02.truncImagCond QGen.C02.truncFluctCond
   by_cases h1 : rabs z.im < eps <;> by_cases h3 : rabs z.re < eps <;> simp [h1, h3]
 
-/-- callees: `to_var_from_choi` goes through the INVERSE conversion (former defect D3), `to_choi_from_var`
-through the forward one; `Povm.matrix_with_sparsity` / `_md_index2serial_index` match their skeletons. -/
-theorem gen_callees :
-    QGen.C02.toVarFromChoiCallee = "to_hs_from_choi_with_sparsity" ∧
-    QGen.C02.toChoiFromVarCallee = "to_choi_from_hs_with_sparsity" ∧ QGen.C02.povmSkeletonMatched = true := by
-  decide
+/-- the variable ↔ Choi glue calls what the source calls (D3 site): `to_var_from_choi` = `convert_hs_to_var` of the GENERATED
+callee applied to the Choi matrix (`to_hs_from_choi_with_sparsity`, the inverse conversion), also as executed through
+`truncate_hs`; `to_choi_from_var` = the generated forward callee on `convert_var_to_hs(var)`.  If the source called the forward
+conversion again (the former defect), `QGen.C02.toVarFromChoiHs` would be `choiSparse` and this theorem would fail. -/
+theorem gen_callees (B : Basis K d (d * d)) (c : Mat K (d * d) (d * d)) (v : Vec K ((d * d) * (d * d)))
+    (w : Vec K ((d * d - 1) * (d * d))) :
+    toVarFromChoiFreeRaw B c = flat (QGen.C02.toVarFromChoiHs B c) ∧
+    toVarFromChoiEqRaw B c = hsToVarEq (QGen.C02.toVarFromChoiHs B c) ∧
+    toChoiFromVarFree B v = QGen.C02.toChoiFromVarChoi B (unflat v) ∧
+    toChoiFromVarEq B w = QGen.C02.toChoiFromVarChoi B (varToHsEq w) := ⟨rfl, rfl, rfl, rfl⟩
+
+theorem gen_callees_executed {d : Nat} (eps : Rat) (B : Basis CRat d (d * d)) (c : Mat CRat (d * d) (d * d)) (onEq : Bool) :
+    toVarFromChoi eps B c onEq
+      = (truncList eps (matList (QGen.C02.toVarFromChoiHs B c))).map fun l => if onEq then l.drop (d * d) else l := by
+  unfold toVarFromChoi QGen.C02.toVarFromChoiHs
+  cases truncList eps (matList (hsOfChoiSparseRaw B c)) <;> rfl
+
+/-- coefficient vector ↔ matrix: the sparse forms are the generated `basis_T_sparse.dot(vec).reshape((dim, dim))` /
+`basisconjugate_sparse.dot(flatten(M))` (state.py and povm.py, incl. the repaired `Povm.matrix_with_sparsity`, D2 site), the
+dense loops of `State.to_density_matrix`, `Povm.matrices`, `Povm.matrix` fold the generated body `acc += coefficient * basis`. -/
+theorem gen_vec_matrix {n : Nat} (B : Basis K d n) (v : Vec K n) (rho : Mat K d d) :
+    densitySparse B v = QGen.C02.densitySparseTerm B v ∧ densitySparse B v = QGen.C02.povmMatrixSparseTerm B v ∧
+    vecOfDensityRaw B rho = QGen.C02.vecOfDensityTerm B rho ∧ vecOfDensityRaw B rho = QGen.C02.povmVecOfMatrixTerm B rho ∧
+    densityLoop B v = (List.finRange n).foldl (fun acc a => QGen.C02.densityLoopTerm acc (v.get a) (B.get a)) Mat.zero ∧
+    densityLoop B v = (List.finRange n).foldl (fun acc a => QGen.C02.povmMatricesLoopTerm acc (v.get a) (B.get a)) Mat.zero ∧
+    densityLoop B v = (List.finRange n).foldl (fun acc a => QGen.C02.povmMatrixLoopTerm acc (v.get a) (B.get a)) Mat.zero :=
+  ⟨rfl, rfl, rfl, rfl, rfl, rfl, rfl⟩
 
 /-! ## non-vacuity: concrete instances of the hypotheses -/
 
@@ -658,7 +882,7 @@ def idEigs : List (EigPair 2) :=
   [⟨0, 0, #v[⟨1, 0⟩, ⟨0, 0⟩, ⟨0, 0⟩, ⟨-1, 0⟩], #v[0, 0, 0, 0]⟩,
    ⟨1, 1, #v[⟨1, 0⟩, ⟨0, 0⟩, ⟨0, 0⟩, ⟨1, 0⟩], #v[1, 0, 0, 1]⟩]
 example : hsOfKrausRaw B0 (krausRaw B0 idHs idEigs 0 0) = idHs :=
-  kraus_roundtrip B0 B0_orthonormal idHs idEigs 0 0 (by decide +kernel)
+  kraus_roundtrip_exact_kernel B0 B0_orthonormal idHs idEigs 0 0 (by decide +kernel)
     (by intro i j; revert i j; decide +kernel) (by decide +kernel) (by decide +kernel)
 
 -- the kernel contract as one hypothesis, on the same instance; the channel of the identity gate is preserved
@@ -666,10 +890,10 @@ example : EighContract B0 idHs idEigs 0 :=
   ⟨by intro i j; revert i j; decide +kernel, by decide +kernel, by decide +kernel⟩
 example (rho : Mat CRat 2 2) :
     krausApply (krausRaw B0 idHs idEigs 0 0) rho = densitySparse B0 (idHs.mulVec (vecOfDensityRaw B0 rho)) :=
-  (kraus_channel_preserved B0 B0_orthonormal idHs idEigs 0 0 (by decide +kernel)
+  (kraus_channel_preserved_exact_kernel B0 B0_orthonormal idHs idEigs 0 0 (by decide +kernel)
     ⟨by intro i j; revert i j; decide +kernel, by decide +kernel, by decide +kernel⟩ rho).1
 example (rho : Mat CRat 2 2) : hsOfKrausRaw B0 (krausFull B0 idHs idEigs 0 0) = idHs :=
-  (kraus_full_roundtrip B0 B0_orthonormal idHs idEigs 0 0 (by decide +kernel)
+  (kraus_full_roundtrip_exact_kernel B0 B0_orthonormal idHs idEigs 0 0 (by decide +kernel)
     ⟨by intro i j; revert i j; decide +kernel, by decide +kernel, by decide +kernel⟩
     (by unfold AbsContract; decide +kernel) rho).1
 -- guard: a Hermitian input (E₀₀) is accepted, the matrix unit E₀₁ is not Hermitian and is rejected
@@ -682,5 +906,29 @@ example : vecOfDensity 0 B0 e01 = .error .imagNonZero :=
 example : vecOfDensity 0 B0 e00 = .ok [1, 0, 0, 0] := by decide +kernel
 -- a unit-modulus phase over the executed scalars
 example : ∀ p ∈ [(⟨0, 1⟩ : CRat), ⟨-1, 0⟩], p * star p = 1 := by decide +kernel
+
+-- executed round trips on real data: the identity HS matrix on B0 with the default-like threshold 1/1000
+def idHsR : Mat Rat (2 * 2) (2 * 2) := Mat.ofFn fun i j => if i = j then 1 else 0
+example : hsOfChoiSparse (1 / 1000) B0 (choiSparse B0 (ofRatMat idHsR)) = .ok (matList idHsR) :=
+  (hs_choi_hs_executed (1 / 1000) B0 B0_orthonormal idHsR (by decide +kernel)).1
+example : hsOfChoiDict (1 / 1000) B0 (choiSparse B0 (ofRatMat idHsR)) = .ok (matList idHsR) :=
+  (hs_choi_hs_executed (1 / 1000) B0 B0_orthonormal idHsR (by decide +kernel)).2.1 B0_hermitian
+example : vecOfDensity (1 / 1000) B0 (densitySparse B0 (ofRatVec #v[1 / 2, 0, 3, -1])) = .ok [1 / 2, 0, 3, -1] :=
+  (vec_density_vec_executed (1 / 1000) B0 B0_orthonormal #v[1 / 2, 0, 3, -1] (by decide +kernel)).1
+example : mdSerial [2, 3, 4, 2] [1, 2, 3, 1] = .ok 47 := by decide
+-- a map with TWO kept eigenpairs handed in in ascending order (as numpy does) and a Kraus operator whose first non-zero entry
+-- is `−i/2` (negative in numpy's complex order): `Λ(ρ) = ¼ρ + ¼ YρY`.  The sort reverses the pairs and the phase branch turns
+-- `Y/2` into `i·Y/2`; the contracts of `kraus_full_roundtrip_exact_kernel` are met and the operators are as computed.
+def yEigs : List (EigPair 2) :=
+  [⟨1, 1, #v[⟨1 / 2, 0⟩, ⟨0, 0⟩, ⟨0, 0⟩, ⟨1 / 2, 0⟩], #v[1 / 2, 0, 0, 1 / 2]⟩,
+   ⟨4, 2, #v[⟨0, 0⟩, ⟨0, -1 / 4⟩, ⟨0, 1 / 4⟩, ⟨0, 0⟩], #v[0, 1 / 2, 1 / 2, 0]⟩]
+def yKraus : List (Mat CRat 2 2) :=
+  [#v[#v[⟨0, 0⟩, ⟨1 / 2, 0⟩], #v[⟨-1 / 2, 0⟩, ⟨0, 0⟩]], #v[#v[⟨1 / 2, 0⟩, ⟨0, 0⟩], #v[⟨0, 0⟩, ⟨1 / 2, 0⟩]]]
+def yHs : Mat CRat (2 * 2) (2 * 2) := hsOfKrausRaw B0 yKraus
+example : krausFull B0 yHs yEigs 0 0 = yKraus := by decide +kernel
+example : hsOfKrausRaw B0 (krausFull B0 yHs yEigs 0 0) = yHs :=
+  (kraus_full_roundtrip_exact_kernel B0 B0_orthonormal yHs yEigs 0 0 (by decide +kernel)
+    ⟨by intro i j; revert i j; decide +kernel, by decide +kernel, by decide +kernel⟩
+    (by unfold AbsContract; decide +kernel) Mat.zero).1
 
 end QM.C02
